@@ -208,6 +208,10 @@ def gen_font_case(rng, fmt):
     if prop:
         mt["width"] = 0
     sizes = [((rng.choice([res_px // 2, res_px, res_px * 3 // 2]) if prop else res_px), res_px) for _ in range(n)]
+    if rng.random() < 0.5:
+        # ready-made PNGs (a glyph map may name bitmap files directly) need not have the height the configuration would rasterise at:
+        # the strike size is that of the pictures embedded, not of the option
+        mt["bitmap_resolution"] = rng.choice([v for v in (128, 96, res_px * 2, 40) if v != res_px])
     # codepoints: singles and sequences whose members come BEFORE/AFTER other glyphs so gid gaps appear
     cps = []
     for i in range(n):
@@ -300,6 +304,11 @@ def check_bitmap_font(ctx, res, case, out):
             res.add_cex(f"advance {adv} != max(width, round(H*w/h)) = {exp_adv}", {"case": case, "i": i}, {"site": "bitmap-advance", "case": case["id"], "i": i})
         A = F(cfg.ascender * want_ppem, cfg.upem)
         L = F(H * want_ppem, cfg.upem)
+        if cfg.bitmap_resolution != R:
+            # ready-made PNGs of another height than the option: the property's image, ppem and advance clauses apply (checked above); its
+            # placement clause speaks of "the PNG the build produced", whose height IS bitmap_resolution — not demanded here
+            res.stat("bitmap:height!=resolution (placement not demanded)")
+            continue
         if fmt == "cbdt":
             m = im.metrics
             y = m.BearingY
